@@ -14,43 +14,37 @@
      - every T_READY [n; ok] text is one of the ready signals announced by a hand-off (the most recent outstanding
        requester gets (true, the line the reader took), every earlier one (false, "")), each consumed by its delivery;
      - when a successful ready signal reaches a SCREEN request n (recorded by T_REQ [scr; args; n]) whose callback
-       has not fired, the very next screen-layer event is T_INPUT [scr; args] text with that same text, and the
-       handler does not end before it;
+       has not fired, the very next screen-layer event is T_INPUT [scr; args] text with that same text and the
+       arguments OF THAT REQUEST, and the handler does not end before it;
      - T_INPUT occurs only then.
-   PARTIAL (finding F15, see C06_args_overwritten_refuted): the comparison of the ARGUMENTS does not hold for every
-   session - InputManager._input_args is one slot per screen, not per request.  [chk_C06_noargs] (proofs/InputLink.v)
-   is chk_C06 without that comparison; it holds for every session; chk_C06 itself holds for every session in which
-   each screen is always scheduled with the same arguments ([wf_session_gen true fargs]: args = fargs screen).
-   "In the order typed" is NOT derivable from the acceptor (hand-offs accumulate their announcements; the acceptor
-   does not order them) and was not proved for the model (it is a liveness-like fact: a ready signal is dispatched
-   before the next line can be taken); proved instead: every delivered line IS a typed line, unmodified. *)
+   It holds for EVERY well-formed session (screen ids in range).  The comparison of the arguments used to fail
+   (finding F15: InputManager._input_args was one slot per screen, read at delivery time); since the fix the callback
+   of a request carries that request's arguments.  The refutation is kept on the legacy model
+   (C06_args_overwritten_refuted_legacy; proofs/C06Proofs.v [legacy_input_ready_handler]).
+   "In the order typed" is FALSE in general, for the model and the implementation
+   (corpus/screen/order_modal_overtakes.json: with a line typed ahead, the ready signal of a screen of an outer event
+   queue waits while a modal screen pushed meanwhile asks, reads the next line and gets it first); what holds for
+   every session: hand-offs happen in typed order (the monitor takes the lines in order, one reader at a time), every
+   delivered line IS a typed line, unmodified, and each hand-off entry is consumed by exactly one ready signal. *)
 From Coq Require Import ZArith NArith List Bool.
 From SL Require Import PyInt LoopSem ScreenSem ScreenMon proofs.InputLink proofs.C06Proofs proofs.C18Proofs.
 Import ListNotations.
 
-(* 1. every session: the line goes to the screen that asked, at once, unmodified (arguments not compared) *)
+(* 1. every session: the line goes to the screen that asked, at once, unmodified, with the arguments of that request *)
 Theorem C06_lines_delivered : forall specs specl typed quit run_empty fuel acts,
   (forall n, specs n = nth n specl default_spec) -> wf_session specl quit acts = true ->
-  sok chk_C06_noargs typed (rev (trace (snd (app_run_all specs specl typed quit run_empty fuel acts)))) = true.
+  sok chk_C06 typed (rev (trace (snd (app_run_all specs specl typed quit run_empty fuel acts)))) = true.
 Proof. exact lines_delivered. Qed.
 
-(* 2. the full acceptor, for sessions in which every screen is always scheduled with the same arguments *)
-Theorem C06_lines_delivered_args_partial : forall fargs specs specl typed quit run_empty fuel acts,
-  (forall n, specs n = nth n specl default_spec) -> wf_session_gen true false fargs specl quit acts = true ->
-  sok chk_C06 typed (rev (trace (snd (app_run_all specs specl typed quit run_empty fuel acts)))) = true.
-Proof. exact lines_delivered_args. Qed.
-
-(* "exactly once": no request is answered twice - no handler gets a second ready signal ([chk_once], proofs/InputLink.v;
-   see C18_no_second_ready), and chk_C06 allows input() only for a request whose callback has not fired *)
+(* "exactly once": no request is answered twice.  Without InputHandler objects of the application's own every handler
+   carries ONE request and gets at most one ready signal ([chk_once], proofs/InputLink.v; see C18_no_second_ready);
+   with re-used handler objects "once" is per REQUEST: see C18_ready_consumes_its_entry.  chk_C06 allows input()
+   only for a request whose callback has not fired *)
 Theorem C06_no_duplicate_delivery : forall specs specl typed quit run_empty fuel acts,
   (forall n, specs n = nth n specl default_spec) -> wf_session specl quit acts = true ->
   no_handler_objects specl acts = true ->
   sok chk_once typed (rev (trace (snd (app_run_all specs specl typed quit run_empty fuel acts)))) = true.
 Proof. exact answered_once. Qed.
-
-(* the two acceptors: chk_C06 = chk_C06_noargs + the comparison of the arguments *)
-Theorem C06_noargs_is_weaker : forall w e, chk_C06 w e = true -> chk_C06_noargs w e = true.
-Proof. exact chk_C06_stronger. Qed.
 
 (* what acceptance means *)
 Theorem C06_delivered_at_once : forall w scr args text e,
@@ -63,21 +57,21 @@ Theorem C06_delivered_at_once : forall w scr args text e,
 Proof. exact C06_must_input_meaning. Qed.
 
 Theorem C06_input_only_for_a_delivered_line : forall w a t,
-  chk_C06_noargs w (EUser T_INPUT a t) = true -> sw_must_input w <> None.
-Proof. exact C06_input_only_when_due. Qed.
+  chk_C06 w (EUser T_INPUT a t) = true -> sw_must_input w <> None.
+Proof. exact C06_input_only_when_due_full. Qed.
 
 (* 3. pure corollary of acceptance: a line delivered as a successful result is one of the typed lines (the empty
       line for end of file, or when no line was ever taken), character for character *)
 Theorem C06_lines_intact : forall typed t1 n text t2,
-  sok chk_C06_noargs typed (t1 ++ EUser T_READY [n; 1] text :: t2) = true ->
+  sok chk_C06 typed (t1 ++ EUser T_READY [n; 1] text :: t2) = true ->
   streq [] text = true \/ exists l, In l typed /\ streq (line_of l) text = true.
-Proof. exact delivered_lines_intact. Qed.
+Proof. exact delivered_lines_intact_full. Qed.
 
 (* a session with 3 screens - screen 1 pushed with arguments 3, screen 2 pushed modally - and 7 typed lines,
    one empty, the last the end of file: each line reaches the screen whose prompt was showing, with the
    arguments that screen was scheduled with; the full acceptor accepts it; and the monitor is not vacuous *)
 Example C06_example :
-  wf_session_gen true false ex06_fargs ex06_specl None ex06_acts = true /\
+  wf_session ex06_specl None ex06_acts = true /\
   fst ex06_run = [ONormal; OBlocked] /\
   sok chk_C06 ex06_typed ex06_trace = true /\
   user_events T_INPUT ex06_trace =
@@ -100,21 +94,23 @@ Example C06_example :
                              EUser T_READY [0; 1] [49%N]; EUser T_INPUT [0; 0] [49%N]] = false.
 Proof. vm_compute. repeat split. Qed.
 
-(* finding F15 (corpus/screen/F15_args_overwritten.json): run() twice after force_quit; the refused second request of
-   the same screen (scheduled a second time with arguments 2) overwrites InputManager._input_args, the error is
-   dropped by force_quit, and the line typed for the first request (arguments 1) is delivered with arguments 2:
-   the model's trace is rejected by chk_C06 and accepted by chk_C06_noargs *)
-Example C06_args_overwritten_refuted :
+(* finding F15, fixed (corpus/screen/F15_args_overwritten.json): run() twice after force_quit; the refused second request
+   of the same screen (scheduled a second time with arguments 2) wrote InputManager._input_args and the error was
+   dropped by force_quit.  LEGACY model (arguments read from the manager at delivery time): the line typed for the
+   first request (arguments 1) is delivered with arguments 2 and chk_C06 rejects the trace.  Current model (the
+   request's callback carries its arguments): delivered with arguments 1, accepted. *)
+Example C06_args_overwritten_refuted_legacy :
   wf_session [f15_spec] None f15_acts = true /\
-  sok chk_C06 f15_typed f15_trace = false /\ sok chk_C06_noargs f15_typed f15_trace = true /\
+  sok chk_C06 f15_typed f15_legacy_trace = false /\
+  user_events T_REQ f15_legacy_trace = [([0; 1; 0], []); ([0; 2; 1], [])] /\
+  user_events T_INPUT f15_legacy_trace = [([0; 2], [49%N])] /\
+  sok chk_C06 f15_typed f15_trace = true /\
   user_events T_REQ f15_trace = [([0; 1; 0], []); ([0; 2; 1], [])] /\
-  user_events T_INPUT f15_trace = [([0; 2], [49%N])].
+  user_events T_INPUT f15_trace = [([0; 1], [49%N])].
 Proof. vm_compute. repeat split. Qed.
 
 Print Assumptions C06_lines_delivered.
-Print Assumptions C06_lines_delivered_args_partial.
 Print Assumptions C06_no_duplicate_delivery.
-Print Assumptions C06_noargs_is_weaker.
 Print Assumptions C06_delivered_at_once.
 Print Assumptions C06_input_only_for_a_delivered_line.
 Print Assumptions C06_lines_intact.
